@@ -276,8 +276,11 @@ func runOnce(c Case, bound time.Duration) (v kit.Verdict, slow bool) {
 		}
 	}
 	if len(v) > 0 {
-		// a reader blocked on the open upstream connection is the same defect
-		return v, slow
+		// The goroutine reading from the connection that was left open is part of
+		// that defect. The harness now ends the server side itself; what remains
+		// after that is a leak of its own.
+		s.ServerTCP().SetLinger(0)
+		s.ServerTCP().Close()
 	}
 	if !kit.Eventually(bound, func() bool { return kit.GoroutinesMatching(h2RE) <= base }) {
 		v.Addf("C10/goroutines/"+cell(c)+"/session-goroutines-remain", "state %s, event %s%s: %d goroutine(s) of the session still exist %v after Config.Proxy returned and both connections were closed: %s", c.State, c.Event, vsuffix(c), kit.GoroutinesMatching(h2RE)-base, bound, blockedAt())
